@@ -277,6 +277,9 @@ pub fn run(ctx: &Ctx, rep: &mut Report) {
       }
       let _ = (mark, tx_from_hex);
       if bad.is_empty() {
+        if rep.want_sample() {
+          rep.sample(json!({"batch_file": yaml, "reported": out.inscriptions.iter().map(|i| format!("{} at {} -> {}", i.id, i.location, i.destination)).collect::<Vec<_>>(), "commit": out.commit.to_string(), "reveal": out.reveal.to_string(), "total_fees": out.total_fees}));
+        }
         rep.count("batches_ok");
         rep.count(&format!("batches_ok_{mode}"));
         rep.add("inscriptions_created_and_compared", n as u64);
